@@ -498,7 +498,21 @@ func c16GenSelector(r *rand.Rand) string {
 	if r.Intn(4) == 0 {
 		ms = append(ms, pick(r, []string{`env="x"`, `env!="x"`, `env=~"x|y"`, `missing="z"`, `env=""`}))
 	}
-	switch r.Intn(12) {
+	switch r.Intn(14) {
+	case 12, 13:
+		// no metric name, several __name__ matchers: a positive regexp narrowed by a negative matcher.  The metric set of the
+		// selector (and of its bare selector) is what ALL of them select.
+		o := pick(r, c16Metrics)
+		for o == m {
+			o = pick(r, c16Metrics)
+		}
+		nm := pick(r, []string{
+			fmt.Sprintf(`__name__=~"%s|%s", __name__!="%s"`, m, o, o),
+			fmt.Sprintf(`__name__=~"m.+", __name__!~"%s|%s"`, o, pick(r, c16Metrics)),
+			fmt.Sprintf(`__name__!="%s", __name__=~"%s|%s"`, o, o, m),
+			fmt.Sprintf(`__name__=~"%s|%s", __name__!~"%s"`, m, o, o)})
+		ms = append([]string{nm}, ms...)
+		return "{" + strings.Join(ms, ", ") + "}"
 	case 0:
 		ms = append([]string{fmt.Sprintf(`__name__="%s"`, m)}, ms...)
 		return "{" + strings.Join(ms, ", ") + "}"
@@ -520,7 +534,15 @@ func c16GenExpr(r *rand.Rand) (string, string, bool, bool) {
 	// selector, only `<selector> or <always-returning>` gives the selector a fallback
 	k := pick(r, []string{"hour()", "day_of_week()", "vector(1)", "vector(time())", "(hour() > 9 < 17)", "(day_of_week() > 0)", "vector(0)"})
 	s3 := c16GenSelector(r)
-	switch r.Intn(26) {
+	switch r.Intn(30) {
+	case 26: // a join nested under an operand that has its own fallback: the fallback exempts that selector only
+		return s1 + " / ((" + s2 + " or vector(0)) + " + s3 + ")", "join-nested-under-fallback-operand", true, false
+	case 27: // a join nested under an operand that is not a selector at all
+		return s1 + " * on() group_left() (vector(2) * on() " + s3 + ")", "join-nested-under-always-operand", true, false
+	case 28: // a conditional unless nested under a fallback operand
+		return s1 + " / ((" + s2 + " or vector(0)) unless " + s3 + " > 5)", "unless-nested-under-fallback-operand", true, false
+	case 29: // both: fallback operand first, then a nested join two levels down
+		return "(" + s1 + " or vector(1)) * on() group_left() (hour() * on() group_right() (" + s2 + " / " + s3 + "))", "joins-under-always-and-fallback", true, false
 	case 22: // `unless <condition>` nested in a join operand: all three selectors decide the result
 		return s1 + " / on(job) (" + s2 + " unless on(job) " + s3 + " > 5)", "join-of-conditional-unless", true, false
 	case 23: // a join inside the condition of an unless
@@ -1018,6 +1040,39 @@ func c16Bin(cons, a, b string) string {
 // ---------------------------------------------------------------------------------------------
 // oracle_impl: the property as written, evaluated directly on the database
 
+// the documented carve-out, decided on the syntax tree: the selector sits on one side of an `or` whose other side is a
+// selector-free always-returning operand (vector(N), a date/time function without argument)
+func c16HasOwnOrFallback(root promParser.Node, sel *promParser.VectorSelector) bool {
+	always := func(e promParser.Expr) bool {
+		for {
+			switch v := e.(type) {
+			case *promParser.ParenExpr:
+				e = v.Expr
+				continue
+			case *promParser.Call:
+				return (v.Func.Name == "vector" && len(v.Args) == 1) || (c16AlwaysFuncs[v.Func.Name] && len(v.Args) == 0)
+			}
+			return false
+		}
+	}
+	inside := func(e promParser.Expr) bool {
+		pr := e.PositionRange()
+		return pr.Start <= sel.PosRange.Start && sel.PosRange.End <= pr.End
+	}
+	hit := false
+	promParser.Inspect(root, func(n promParser.Node, _ []promParser.Node) error {
+		be, ok := n.(*promParser.BinaryExpr)
+		if !ok || be.Op != promParser.LOR {
+			return nil
+		}
+		if (inside(be.LHS) && always(be.RHS)) || (inside(be.RHS) && always(be.LHS)) {
+			hit = true
+		}
+		return nil
+	})
+	return hit
+}
+
 func c16Oracle(c *c16Case, astSels []*promParser.VectorSelector, astRoot promParser.Node) {
 	lb := c16ParseDur(c.LookbackRange)
 	hour := 60 * c16Minute
@@ -1090,6 +1145,9 @@ func c16Oracle(c *c16Case, astSels []*promParser.VectorSelector, astRoot promPar
 		}
 		if !checked[k] {
 			continue
+		}
+		if c.AllChecked && c16HasOwnOrFallback(astRoot, s) {
+			continue // `<selector> or vector(0)`: documented, not checked
 		}
 		n := c16MetricName(s)
 		if n == "ALERTS" || n == "ALERTS_FOR_STATE" {
